@@ -32,7 +32,8 @@ SHAPES = [
      "def {name}(x, *, r: {ann0} = resource({n0}), k=7, r2: {ann1} = resource('second')):\n    BODY\n    return ('f', x, k, r, r2)"),
     ("injected parameter passed explicitly by the caller is not expected", "def {name}(x, y=2, *, r: {ann0} = resource({n0})):\n    BODY\n    return ('f', x, y, r)"),
 ]
-ANNS = [("T0", False), ("Optional[T0]", True), ("T0 | None", True), ("'T0'", False), ("'Optional[T0]'", True), ("'LocalT'", False)]
+ANNS = [("T0", False), ("Optional[T0]", True), ("T0 | None", True), ("'T0'", False), ("'Optional[T0]'", True), ("'LocalT'", False),
+        ("None | T0", True), ("Union[None, T0]", True)]
 STATES = ["static resource", "sync factory (not yet generated)", "async factory (not yet generated)", "inherited from the parent context", "missing"]
 SITES = ["same context", "nested child context", "another task spawned from the context", "a task running in an unrelated context"]
 
@@ -45,7 +46,27 @@ class Val:
         return f"<{self.label}>"
 
 
-def build_fn(shape, ann, is_async, name0, log):
+def _plain_decorator(fn):
+    """An ordinary functools.wraps-based decorator sitting UNDER @inject."""
+    import functools
+    import inspect
+
+    if inspect.iscoroutinefunction(fn):
+
+        @functools.wraps(fn)
+        async def awrapper(*a, **kw):
+            return await fn(*a, **kw)
+
+        return awrapper
+
+    @functools.wraps(fn)
+    def wrapper(*a, **kw):
+        return fn(*a, **kw)
+
+    return wrapper
+
+
+def build_fn(shape, ann, is_async, name0, log, wrapped=False):
     """exec the function source inside a helper function, so that a *local* class is only
     resolvable through inject's captured local namespace."""
     LocalT = T0  # noqa: F841 - referenced by the string annotation 'LocalT'
@@ -53,7 +74,9 @@ def build_fn(shape, ann, is_async, name0, log):
     src = src.replace("BODY", "log.append('body')")
     if is_async:
         src = "async " + src
-    ns = {"resource": resource, "T0": T0, "T1": T1, "Optional": Optional, "log": log, "LocalT": LocalT}
+    from typing import Union
+
+    ns = {"resource": resource, "T0": T0, "T1": T1, "Optional": Optional, "Union": Union, "log": log, "LocalT": LocalT}
     if ANNS[ann][0] == "'LocalT'":
         # a real closure-local name: compile inside a nested function scope
         code = "def outer():\n    LocalT = T0\n" + "\n".join("    " + ln for ln in src.splitlines()) + "\n    return f, inject(f)\n"
@@ -63,16 +86,19 @@ def build_fn(shape, ann, is_async, name0, log):
         return ns["outer"]()
     exec(src, ns)
     f = ns["f"]
+    if wrapped:
+        f = _plain_decorator(f)
     return f, inject(f)
 
 
 def params(tier):
-    return [P("shape", 0, 3), P("ann", 0, 5), P("is_async", 0, 1), P("s0", 0, 4), P("s1", 0, 4), P("site", 0, 3), P("name", 0, 1)]
+    return [P("shape", 0, 3), P("ann", 0, 7), P("is_async", 0, 1), P("s0", 0, 4), P("s1", 0, 4), P("site", 0, 3), P("name", 0, 1), P("wrapped", 0, 1)]
 
 
 @guard
 def fn(a, tier):
-    shape, ann, is_async = pick(a["shape"], 4), pick(a["ann"], 6), pick(a["is_async"], 2)
+    shape, ann, is_async = pick(a["shape"], 4), pick(a["ann"], 8), pick(a["is_async"], 2)
+    wrapped = pick(a["wrapped"], 2) if ANNS[ann][0] != "'LocalT'" else 0
     s0 = pick(a["s0"], 5)
     s1 = pick(a["s1"], 5) if shape == 2 else 4
     site = pick(a["site"], 4)
@@ -128,7 +154,7 @@ def fn(a, tier):
             async with Context() as parent:
                 # the decorator is applied while ANOTHER context (the parent) is current: the context that
                 # matters is the one current at call time
-                fns["pair"] = build_fn(shape, ann, is_async, name0, log)
+                fns["pair"] = build_fn(shape, ann, is_async, name0, log, wrapped)
                 for st, t, nm, tag in ((s0, T0, name0, "dep0"), (s1, T1, "second", "dep1")):
                     if st == 3:
                         provide(parent, None, t, nm, st, tag)
@@ -167,7 +193,7 @@ def fn(a, tier):
 
     got = scenario(True)
     exp = scenario(False)
-    summary = {"signature": SHAPES[shape][0], "annotation": ANNS[ann][0], "function": "async def" if is_async else "def",
+    summary = {"signature": SHAPES[shape][0], "annotation": ANNS[ann][0], "function": ("async def" if is_async else "def") + (" under another functools.wraps decorator" if wrapped else ""),
                "dependency_0": STATES[s0] + f" under name {name0!r}", "dependency_1": STATES[s1] if shape == 2 else "-", "call_site": SITES[site],
                "explicit_lookup_gives": exp}
     if got != exp:
